@@ -55,6 +55,7 @@ type dcfg struct {
 	Seed       int64          `json:"seed"`
 	OnStatus   bool           `json:"on_status_error,omitempty"` // install an OnStatusError callback
 	ViaPackage bool           `json:"via_ws_Dial,omitempty"`     // dial through ws.Dial / ws.DefaultDialer
+	Wrap       bool           `json:"wrap_conn,omitempty"`       // Dial cases: install a recording WrapConn
 	// VetoAt: 0 no OnHeader callback; -1 a callback that only records; k >= 1 a
 	// callback that returns errVeto at its k-th invocation.
 	VetoAt int `json:"on_header_veto_at,omitempty"`
@@ -1061,7 +1062,24 @@ func TestKeyFreshness(t *testing.T) {
 // ---------------------------------------------------------------------------
 // Dial: address derivation
 
-type wrapConn struct{ net.Conn }
+// wrapConn is a recording layer around a connection (returned by the TLSClient
+// and WrapConn stubs): it counts the bytes that pass through it.
+type wrapConn struct {
+	net.Conn
+	read, wrote int
+}
+
+func (w *wrapConn) Read(p []byte) (int, error) {
+	n, err := w.Conn.Read(p)
+	w.read += n
+	return n, err
+}
+
+func (w *wrapConn) Write(p []byte) (int, error) {
+	n, err := w.Conn.Write(p)
+	w.wrote += n
+	return n, err
+}
 
 type dialRec struct {
 	network, addr string
@@ -1070,7 +1088,12 @@ type dialRec struct {
 	tlsHost       string
 	tlsGot        net.Conn
 	raw           *respgen.Conn
-	wrapped       net.Conn
+	wrapped       *wrapConn // what the TLSClient stub returned
+	wrapCalls     int
+	wrapGot       net.Conn  // what WrapConn received
+	outer         *wrapConn // what the WrapConn stub returned
+	// byte counts at the moment Dial returned
+	peerRead, tlsRead, tlsWrote, outerRead, outerWrote int
 }
 
 func dialOnce(c *dcfg, r *respgen.Response, sizes []int) (rec *dialRec, conn net.Conn, o outcome) {
@@ -1090,8 +1113,16 @@ func dialOnce(c *dcfg, r *respgen.Response, sizes []int) (rec *dialRec, conn net
 	d.TLSClient = func(conn net.Conn, hostname string) net.Conn {
 		rec.tlsCalls++
 		rec.tlsHost, rec.tlsGot = hostname, conn
-		rec.wrapped = &wrapConn{conn}
+		rec.wrapped = &wrapConn{Conn: conn}
 		return rec.wrapped
+	}
+	if c.Wrap {
+		d.WrapConn = func(conn net.Conn) net.Conn {
+			rec.wrapCalls++
+			rec.wrapGot = conn
+			rec.outer = &wrapConn{Conn: conn}
+			return rec.outer
+		}
 	}
 	if c.OnStatus {
 		o.statusHook(&d)
@@ -1115,6 +1146,13 @@ func dialOnce(c *dcfg, r *respgen.Response, sizes []int) (rec *dialRec, conn net
 	o.written, o.sent, o.lateW = peer.Written, peer.Data, peer.LateWrites
 	if o.panicked != nil {
 		return
+	}
+	rec.peerRead = peer.Pos
+	if rec.wrapped != nil {
+		rec.tlsRead, rec.tlsWrote = rec.wrapped.read, rec.wrapped.wrote
+	}
+	if rec.outer != nil {
+		rec.outerRead, rec.outerWrote = rec.outer.read, rec.outer.wrote
 	}
 	o.brNonNil = br != nil
 	if o.err == nil {
@@ -1168,8 +1206,28 @@ func checkDial(c *dcfg, r *respgen.Response, sizes []int) string {
 			return fmt.Sprintf("TLSClient called %d times / not with the dialed connection", rec.tlsCalls)
 		}
 		wantConn = rec.wrapped
+		if rec.tlsWrote != len(o.written) || rec.tlsRead != rec.peerRead {
+			return fmt.Sprintf("TLSClient's connection carried %d written / %d read bytes, the peer saw %d / %d", rec.tlsWrote, rec.tlsRead, len(o.written), rec.peerRead)
+		}
 	} else if rec.tlsCalls != 0 {
 		return "TLSClient called for a ws:// URL"
+	}
+	// WrapConn is the outermost layer: it receives the dialed (ws) or
+	// TLS-wrapped (wss) connection, all handshake I/O goes through what it
+	// returns, and that is what Dial returns.
+	if c.Wrap {
+		if rec.wrapCalls != 1 {
+			return fmt.Sprintf("WrapConn called %d times", rec.wrapCalls)
+		}
+		if rec.wrapGot != wantConn {
+			return fmt.Sprintf("WrapConn received %T, want the %s connection", rec.wrapGot, map[bool]string{false: "dialed", true: "TLS-wrapped"}[u.Scheme == "wss"])
+		}
+		if rec.outerWrote != len(o.written) || rec.outerRead != rec.peerRead {
+			return fmt.Sprintf("WrapConn's connection carried %d written / %d read bytes, the peer saw %d / %d: handshake I/O bypassed the wrapper", rec.outerWrote, rec.outerRead, len(o.written), rec.peerRead)
+		}
+		wantConn = rec.outer
+	} else if rec.wrapCalls != 0 {
+		return "WrapConn called although not configured"
 	}
 	if _, msg := checkRequest(o.written, u, c); msg != "" {
 		return msg
@@ -1179,7 +1237,7 @@ func checkDial(c *dcfg, r *respgen.Response, sizes []int) string {
 		return msg
 	}
 	if o.err == nil && conn != wantConn {
-		return "Dial returned a connection that is neither the dialed nor the TLS-wrapped one"
+		return fmt.Sprintf("Dial returned %T, which is not the outermost connection (dialed / TLS-wrapped / WrapConn's)", conn)
 	}
 	return ""
 }
@@ -1190,6 +1248,10 @@ func TestDial(t *testing.T) {
 		r := respgen.Gen(t, "resp", c.Req, respgen.Opts{ValidOnly: rapid.IntRange(0, 3).Draw(t, "validonly") > 0, MinExtra: minExtra(c.VetoAt)})
 		sizes := gen.Chunks(t, "chunks")
 		c.ViaPackage = rapid.IntRange(0, 3).Draw(t, "via_ws_Dial") == 0
+		c.Wrap = rapid.Bool().Draw(t, "wrapconn")
+		if c.Wrap {
+			hx.Class("dial/wrapconn")
+		}
 		if c.ViaPackage {
 			hx.Class("dial/via-ws.Dial")
 		}
@@ -1222,7 +1284,7 @@ func TestDialURLGrid(t *testing.T) {
 			for _, port := range []string{"", ":80", ":443", ":8080", ":1", ":65535"} {
 				for _, path := range append(append([]string(nil), pathPool...), hardPaths...) {
 					for _, q := range append([]string{"", "?", "?x=1&y=%20"}, hardQueries...) {
-						c := dcfg{URL: scheme + "://" + host + port + path + q, Seed: int64(n), ViaPackage: n%5 == 0}
+						c := dcfg{URL: scheme + "://" + host + port + path + q, Seed: int64(n), ViaPackage: n%5 == 0, Wrap: n%3 == 0}
 						n++
 						if msg := checkDial(&c, valid, nil); msg != "" {
 							hx.Failf(t, c, "%s", msg)
@@ -2006,11 +2068,25 @@ func TestDefaultTLSClientServerName(t *testing.T) {
 					return hc, nil
 				},
 			}
+			wraps, wrapGotTLS := 0, false
+			var outer *wrapConn
+			if n%2 == 1 { // every other dial also with WrapConn: it gets the *tls.Conn and carries the (plaintext) request
+				d.WrapConn = func(conn net.Conn) net.Conn {
+					wraps++
+					_, wrapGotTLS = conn.(*tls.Conn)
+					outer = &wrapConn{Conn: conn}
+					return outer
+				}
+			}
 			n++
 			desc := map[string]string{"tls_config": k.name, "url": u.String()}
 			_, _, _, err := d.Dial(context.Background(), u.String())
 			if err == nil {
 				hx.Failf(t, desc, "Dial succeeded although the connection ended during the TLS handshake")
+				return
+			}
+			if d.WrapConn != nil && (wraps != 1 || !wrapGotTLS) {
+				hx.Failf(t, desc, "default TLS client + WrapConn: WrapConn called %d times, received a *tls.Conn: %v", wraps, wrapGotTLS)
 				return
 			}
 			if want := expectedAddr(u); addr != want {
